@@ -114,7 +114,26 @@ func runProp(pd *propDef, tier, repo, vdir string) (code int) {
 		return 2
 	}
 	c := newCtx(p, pd.ID, tier)
-	pd.Run(c)
+	func() {
+		// an analysis that trips over an unexpected code shape must fail the property (undecided),
+		// with a report, rather than crash without a verdict
+		defer func() {
+			if r := recover(); r != nil {
+				st := strings.Split(string(debug.Stack()), "\n")
+				var where []string
+				for _, l := range st {
+					if strings.Contains(l, "/analyzer/") && !strings.Contains(l, "main.go") {
+						where = append(where, strings.TrimSpace(l))
+					}
+				}
+				if len(where) > 4 {
+					where = where[:4]
+				}
+				c.undecided("meta", "internal-error", "-", fmt.Sprintf("the analysis met a code shape it cannot follow (%v); the property is undecided on this tree", r), where...)
+			}
+		}()
+		pd.Run(c)
+	}()
 	extra := map[string]interface{}{}
 	if tier == "thorough" {
 		runThorough(pd, c, repo, vdir, extra)
